@@ -341,3 +341,41 @@ for _p in ("C10", "C11", "C20"):
 
 # unbounded amounts: the ledger operations (Ledger.tla, used by Cw20.tla) preserve sum(balances) = supply - Apalache, thorough tier
 PLANS["C18"]["apalache"] = [dict(module="Ledger_apa", inv="IndInv", timeout=1500, thorough_only=True)]
+
+
+# ---- which recorded runs count as non-trivial for a property (evidence: distinct_nontrivial); r = trace line, p = previous line
+def _ok(r, c, k):
+    t = r["tx"]
+    return r["ok"] and t.get("k") == "exec" and t.get("c") == c and t["msg"].get("k") == k
+
+
+def _hook(r, tok, hook):
+    t = r["tx"]
+    return r["ok"] and t.get("k") == "exec" and t.get("c") == tok and t["msg"].get("k") in ("send", "send_from") and t["msg"].get("hook") == hook
+
+
+def _rate_off(r):
+    return r["obs"]["rep"]["rateB"] != [1, 0, 0] or r["obs"]["rep"]["rateSt"] != [1, 0, 0]
+
+
+NONTRIVIAL = {
+    "C01": lambda r, p: _ok(r, "hub", "withdraw_unbonded"),
+    "C02": lambda r, p: r["ok"] and (len([x for x in r["fx"] if x["t"] == "delegate"]) >= 2 or any(x["t"] == "undelegate" for x in r["fx"])),
+    "C03": lambda r, p: p is not None and _rate_off(p) and (_ok(r, "hub", "bond") or _ok(r, "hub", "bond_for_st_sei") or _hook(r, "bsei", "convert") or _hook(r, "stsei", "convert")),
+    "C04": lambda r, p: _rate_off(r),
+    "C05": lambda r, p: p is not None and p["obs"]["rep"]["rateB"][0] == 0 and (_ok(r, "hub", "bond") or _hook(r, "bsei", "unbond") or _hook(r, "bsei", "convert") or _hook(r, "stsei", "convert")),
+    "C06": lambda r, p: r["tx"].get("k") in ("slash", "slash_unb") and r["ok"] and r["st"]["hub"]["bondB"] > 0 and r["st"]["hub"]["bondSt"] > 0,
+    "C07": lambda r, p: (_hook(r, "bsei", "unbond") or _hook(r, "stsei", "unbond")) and sum(1 for u in r["st"]["wait"].values() for e in u if e["b"] or e["st"]) >= 2,
+    "C08": lambda r, p: len(r["st"]["hist"]) >= 2,
+    "C09": lambda r, p: r["tx"].get("k") == "probe" and r["tx"]["tx"]["msg"].get("hook") == "unbond",
+    "C10": lambda r, p: r["tx"].get("k") == "probe" or (r["tx"].get("k") == "exec" and not r["ok"]),
+    "C11": lambda r, p: r["st"]["hubPar"]["paused"],
+    "C13": lambda r, p: _ok(r, "registry", "remove_validator") and any(x["t"] == "redelegate" for x in r["fx"]),
+    "C14": lambda r, p: _ok(r, "reward", "claim_rewards"),
+    "C15": lambda r, p: p is not None and r["st"]["rew"]["gidx"] != p["st"]["rew"]["gidx"] and sum(1 for h in r["st"]["rew"]["holders"].values() if h["bal"] > 0) >= 2,
+    "C16": lambda r, p: r["ok"] and r["tx"].get("k") == "exec" and r["tx"].get("c") == "bsei",
+    "C17": lambda r, p: _ok(r, "dispatcher", "dispatch_rewards") or _ok(r, "dispatcher", "swap_to_reward_denom") or _ok(r, "hub", "update_global_index"),
+    "C18": lambda r, p: r["ok"] and r["tx"].get("k") == "exec" and r["tx"].get("c") in ("bsei", "stsei") and r["tx"]["msg"].get("k") in ("transfer_from", "send_from", "burn_from"),
+    "C19": lambda r, p: _ok(r, "hub", "update_global_index") or (_ok(r, "registry", "remove_validator") and any(x.get("k") == "update_global_index" for x in r["fx"])),
+    "C20": lambda r, p: r["tx"].get("k") in ("probe", "exec") and (r["tx"].get("tx", r["tx"]).get("msg", {}).get("k") in ("update_params", "update_config")),
+}
